@@ -130,6 +130,40 @@ pub async fn run_device<C: Crypto>(
     .await;
 }
 
+/// Bring the device up from the store and factory-reset it (both halves: `Matter` and the
+/// Interaction Model). Returns true if every call succeeded.
+pub async fn factory_reset<C: Crypto>(
+    matter: &Matter<'_>,
+    crypto: &C,
+    simkv: SimKv,
+    state: &DeviceState,
+    buffers: &MatterBuffers,
+) -> bool {
+    let kv = matter.kv(simkv);
+    if matter.startup(&kv).is_err() {
+        return false;
+    }
+    let net_ctl_state = NetCtlState::new_with_mutex();
+    let net_ctl = NetCtlWithStatusImpl::new(&net_ctl_state, SimNetCtl::new());
+    let Ok(rand) = crypto.rand() else {
+        return false;
+    };
+    let handler = (
+        DEVICE_NODE,
+        endpoints::WifiSysHandlerBuilder::new(&net_ctl, &net_ctl).build(rand),
+    );
+    let im = InteractionModel::new_with_net_ctl(
+        matter, crypto, buffers, handler, &kv, &net_ctl, state,
+    );
+    if im.startup().await.is_err() {
+        return false;
+    }
+    if matter.factory_reset(&kv).is_err() {
+        return false;
+    }
+    im.factory_reset().await.is_ok()
+}
+
 /// A simulated Wi-Fi controller: `connect` succeeds at once and the link then reports
 /// "connected" (so the operational wireless manager parks instead of re-connecting in a
 /// loop); scanning is not supported; the link state never changes by itself.
